@@ -214,6 +214,8 @@ def run_case(c, chk, spec_items, spec_meta, grid_items, grid_meta):
         H0 = numpy.diag(system.elenergies).astype(float)
         D0 = system.dmoments.copy()
     ac, sp, calls, RR = calculate(c, time, system, c["tensor"])
+    if agg:
+        coft_cases(c, chk, ac, system)
     R0 = None
     data = numpy.asarray(sp.data, dtype=float)
     with qr.energy_units("int"):
@@ -349,6 +351,32 @@ def run_case(c, chk, spec_items, spec_meta, grid_items, grid_meta):
     return True
 
 
+# ------------------------------------------------------------------ exciton correlation functions
+COFT_ITEMS, COFT_META = [], []
+
+
+def coft_cases(c, chk, ac, system):
+    """_excitonic_coft driven with an (asymmetric) integer matrix in place of the eigenvectors, so that rows and columns, the +1
+    offsets and the pair of site indices of cfm.get_coft are told apart exactly; Model.C11.exc_coft gets the same matrix and the
+    site correlation functions of the run at three time points"""
+    import numpy
+    r = cm.rng("C11/coft/" + json.dumps(c, sort_keys=True))
+    na = int(system.nmono)
+    dim = int(system.get_Hamiltonian().dim)
+    SSi = [[r.randint(-3, 3) for _ in range(dim)] for _ in range(dim)]
+    cfm = system.get_SystemBathInteraction().CC
+    cof = [[numpy.asarray(cfm.get_coft(k, l), dtype=complex) for l in range(na)] for k in range(na)]
+    for n in range(na):
+        ct = numpy.asarray(ac._excitonic_coft(numpy.array(SSi, dtype=float), system, n), dtype=complex)
+        chk.count("coft:sites%d" % na)
+        for tidx in sorted({0, 1, len(ct) // 2}):
+            out = complex(ct[tidx])
+            Cm = cm.clist([cm.clist([cm.gq(complex(cof[k][l][tidx])) for l in range(na)]) for k in range(na)])
+            Sm = cm.clist([cm.clist([cm.zlit(v) for v in row]) for row in SSi])
+            COFT_ITEMS.append("(%d%%nat, %s, %s, %d%%nat, %s, %s)" % (na, Sm, Cm, n, cm.gq(out), cm.qlit(1e-12 * (1.0 + abs(out)))))
+            COFT_META.append({"case": c, "n": n, "tidx": tidx, "SS": SSi})
+
+
 # ------------------------------------------------------------------ re-use of one calculator
 def gen_reuse(r, k):
     base = gen_case(r, k, tensor=False)
@@ -481,6 +509,11 @@ def run(chk, cases):
         shards.append(cm.HEADER + imp + "Definition cs : list case_grid := %s.\nEval vm_compute in (bad (grid_agrees Pinned) cs).\n"
                       "Eval vm_compute in (bad (grid_agrees Repaired) cs).\n" % cm.clist(grid_items[k:k + CG]))
         index.append(("grid", k, CG))
+    CC = 40
+    for k in range(0, len(COFT_ITEMS), CC):
+        shards.append(cm.HEADER + imp + "Definition cs : list case_coft := %s.\nEval vm_compute in (bad coft_agrees cs).\n"
+                      % cm.clist(COFT_ITEMS[k:k + CC]))
+        index.append(("coft", k, CC))
     results = cm.coq_eval(PID, shards)
     pinned_ok = repaired_ok = ngrid = 0
     for (what, k, ch), (rc, out) in zip(index, results):
@@ -490,9 +523,17 @@ def run(chk, cases):
             continue
         vals = cm.parse_evals(out)
         badl = cm.parse_natlist(vals[0])
-        meta = spec_meta if what == "spec" else grid_meta
+        meta = spec_meta if what == "spec" else (COFT_META if what == "coft" else grid_meta)
         n = min(ch, len(meta) - k)
-        if what == "spec":
+        if what == "coft":
+            chk.corr["cases"] += n
+            chk.corr["disagreements"] += len(badl)
+            for i in badl[:3]:
+                m = meta[k + i]
+                chk.violation("correspondence:exciton_coft", "_excitonic_coft(SS, aggregate, %d) differs at time index %d from Model.C11.exc_coft "
+                              "(sum_kk sum_ll SS[kk+1,n+1]^2 SS[ll+1,n+1]^2 C_kk,ll) for SS = %s" % (m["n"], m["tidx"], m["SS"]),
+                              "correspondence", m["case"])
+        elif what == "spec":
             chk.corr["cases"] += n
             chk.corr["disagreements"] += len(badl)
             for i in badl[:3]:
@@ -550,7 +591,7 @@ def main():
     chk.rule = ("molecules, dimers, trimers; transition energies within +-250 1/cm of the RWA frequency (lines resolved inside the window), "
                 "integer dipole vectors, aggregates built with mult = 1 and mult = 2 (two-exciton states present), couplings explicit (0..+-200 1/cm) or from dipole-dipole geometry, Nt in {100..301} even and odd, "
                 "dt in {1, 1.5, 2} fs, equal or different reorganisation energies, with/without a supplied standard Redfield tensor; each "
-                "case also with scaled, rotated (proper/improper), relabelled inputs; re-use cases: ONE calculator bootstrapped 2-3 times (other RWA frequency, the same one again, RWA then defined on the molecule, another system / lineshape) with calculate() after each, compared with a fresh calculator bootstrapped once. Non-trivial: every completed case; distinct by input")
+                "case also with scaled, rotated (proper/improper), relabelled inputs; re-use cases: ONE calculator bootstrapped 2-3 times (other RWA frequency, the same one again, RWA then defined on the molecule, another system / lineshape) with calculate() after each, compared with a fresh calculator bootstrapped once; for every aggregate case _excitonic_coft is also driven directly with a random asymmetric integer matrix (-3..3) in place of the eigenvectors, every exciton index, and compared exactly (1e-12) with Model.C11.exc_coft at three time points. Non-trivial: every completed case; distinct by input")
     chk.assumptions = [
         "numpy.fft.hfft computes Re sum_m c_m a_m exp(-2 pi i m k / n), c = (1,2,...,2,1), n = 2Nt-2 (hypothesis hfft_spec): monitored, 1e-10",
         "the lineshape function g(t) is the code's own _c2g (spline double integration: oracle, property C09/C10 territory); eigenvectors from "
@@ -560,7 +601,18 @@ def main():
         "scaling of a single molecule's spectrum holds up to its natural line width, which depends on the dipole (relative 1e-5; tolerance 2e-4)",
         "with a supplied tensor the time-domain response is not rebuilt independently: purity, symmetry and axis clauses only",
         "the calculator sets system._has_system_bath_coupling = True on aggregates (an attribute, not H, D or R): noted, not a violation"]
+    chk.assumptions.append(
+        "static tie (harness/translate_c11.py, translate_c13.py; trusted to read the ast faithfully): the tail of one_transition_spectrum and of "
+        "_calculate_abs_from_dynamics, the sum over transitions of _calculate_aggregate, bootstrap's creation and shift of self.frequencyAxis, "
+        "TimeAxis.get_FrequencyAxis and the re-created axis of the three calculators are translated from the current source and proved equal to "
+        "Model.C11 (one_transition, spectrum, returned_axis_point Pinned - the code as it is, known finding included); assumed meanings: "
+        "numpy.flipud = reversal, fftshift = roll by n//2, a[i:j] = Python slice, numpy.real of hfft's (real) output is the identity, `.data += c` "
+        "adds c to every axis value and leaves start/step attributes alone, FrequencyAxis(st, Nt, do) has points st + p do; the calculator's "
+        "TimeAxis is upper-half with frequency_start 0; _excitonic_coft's loop nest and accumulated term are translated and proved equal to "
+        "Model.C11.exc_coft (time point by time point; cfm.get_coft(k, l) is an input); the time-domain responses (exp(-g - i w t), _c2g) are inputs")
     chk.prove()
+    import translate
+    translate.static_tie(cm, chk, PID, cm.REPO)      # second, static tie: model regenerated from the current source
     if args.replay:
         rep = json.load(open(args.replay))
         cases = [rep["input"]] if isinstance(rep.get("input"), dict) and rep["input"].get("kind") in ("spec", "reuse") else []
